@@ -29,7 +29,7 @@ BUDGET = {
     'thorough': dict(examples=80000, time_s=2400, fuzz=dict(workers=8, runs=6000, max_s=300)),
 }
 
-OPS = ['cols', 'cols', 'rows', 'to_rfi', 'to_mef', 'start_end', 'high_low']
+OPS = ['cols', 'cols', 'rows', 'to_rfi', 'to_mef', 'start_end', 'high_low', 'one_event', 'one_channel']
 DUPS = ['copy', 'copy.copy', 'deepcopy', 'view'] + ['pickle%d' % p for p in range(6)]
 
 
@@ -78,6 +78,11 @@ def apply_op(d, op):
     k = op['op']
     if k == 'cols':
         return d[:, chs], 'cols_reordered' if cols != sorted(cols) else 'cols'
+    if k == 'one_event':
+        # a single event taken with an integer index: one-dimensional, still all channels
+        return (d[op['a'] % N], 'one_event') if N else (d, 'skipped')
+    if k == 'one_channel':
+        return d[:, chs[0]], 'one_channel'          # a single channel: one-dimensional, one channel
     if k == 'rows':
         if op['use_mask']:
             m = np.random.Generator(np.random.PCG64(op['mask_seed'])).random(N) < 0.6
